@@ -141,6 +141,22 @@ var seeds = []seed{
 		Old: "if !inturn && diff.Cmp(diffNoTurn) != 0 {", New: "if !inturn && diff.Cmp(diffNoTurn) != 0 && diff.Cmp(diffInTurn) != 0 {"},
 	{Prop: "C09", Name: "in-turn computed over the unsorted validator list", File: fBscSnap, Expect: "C09/",
 		Old: "offset := (s.Number + 1) % uint64(len(validators))", New: "offset := s.Number % uint64(len(validators))"},
+	{Prop: "C09", Name: "validator list no longer sorted", File: fBscSnap, Expect: "C09/turn-order",
+		Old: "\tsort.Sort(validatorsAscending(validators))\n", New: "\t_ = sort.Sort\n"},
+	{Prop: "C09", Name: "validators sorted in descending order", File: fBscSnap, Expect: "C09/turn-order",
+		Old: "return bytes.Compare(s[i][:], s[j][:]) < 0 }", New: "return bytes.Compare(s[i][:], s[j][:]) > 0 }"},
+	{Prop: "C09", Name: "metadata export stops after the first entry", File: fBscCS, Expect: "C09/window-and-pending",
+		Old: "\t\tgm = append(gm, clienttypes.NewGenesisMetadata(key, val))\n\t\treturn false\n\t}\n\n\tIteratorTraversal(store, PrefixKeyRecentSingers, callback)", New: "\t\tgm = append(gm, clienttypes.NewGenesisMetadata(key, val))\n\t\treturn true\n\t}\n\n\tIteratorTraversal(store, PrefixKeyRecentSingers, callback)"},
+	{Prop: "C14", Name: "recent-signer scan stops at the first entry of the signer (map order decides)", File: fBscHdr, Expect: "C14/nondeterminism-source",
+		Old: "\t\t\t\treturn sdkerrors.Wrap(ErrRecentlySigned, signer.Hex())\n\t\t\t}\n", New: "\t\t\t\treturn sdkerrors.Wrap(ErrRecentlySigned, signer.Hex())\n\t\t\t}\n\t\t\tbreak\n"},
+	{Prop: "C08", Name: "slot path prints the sequence through int", File: fHostKey, Expect: "C08/slot-path-shape",
+		Old: "return fmt.Sprintf(\"%s/%d\", PacketCommitmentPrefixPath(srcChain, dstChain), sequence)", New: "return fmt.Sprintf(\"%s/%d\", PacketCommitmentPrefixPath(srcChain, dstChain), int(sequence))"},
+	{Prop: "C03", Name: "refund callback skipped for error acknowledgements", File: fMsgSrv, Expect: "C03/ack-outcome",
+		Old: "\t\t// OnAcknowledgementPacket\n\t\tif _, err := ", New: "\t\t// OnAcknowledgementPacket\n\t\tif !success {\n\t\t\treturn &packettypes.MsgAcknowledgementResponse{}, nil\n\t\t}\n\t\tif _, err := "},
+	{Prop: "C04", Name: "upgrade keeps the packet contract's storage", File: "app/upgrades.go", Expect: "C04/reset-wipes-both-counters",
+		Old: "_ = app.EvmKeeper.DeleteAccount(ctx, common.HexToAddress(DeprecatedPacketContractAddress))", New: "_ = DeprecatedPacketContractAddress"},
+	{Prop: "C15", Name: "prune scan tolerates a missing consensus state and dereferences it", File: fEthUpd, Expect: "C15/result-used-only",
+		Old: "\t\tif err != nil {\n\t\t\tpruneError = err", New: "\t\tif err != nil && !clienttypes.ErrInvalidConsensus.Is(err) {\n\t\t\tpruneError = err"},
 	// C10
 	{Prop: "C10", Name: "timestamp may equal the parent's", File: fEthHdr, Expect: "C10/",
 		Old: "if header.Time <= parentHeader.Time {", New: "if header.Time < parentHeader.Time {"},
